@@ -22,56 +22,52 @@ import (
 // Oracle: WriteTo -> ReadPacket succeeds, same dynamic type, every accessor
 // equals the model, and re-encoding the decoded packet is byte-identical.
 
-type caseC01 struct {
-	ModelGob string     `json:"model_gob"`
-	Model    string     `json:"model"`
-	Plan     []api.Step `json:"plan"`
-}
-
-func mkCaseC01(m model.Packet, plan []api.Step) caseC01 {
-	return caseC01{ModelGob: packModel(m), Model: m.String(), Plan: plan}
-}
+type caseC01 = buildCase
 
 // checkC01 is the pure oracle. It returns the frame (for statistics), a
 // root-cause signature and a message; msg == "" means the property held.
-func checkC01(m model.Packet, plan []api.Step) (frame []byte, sig, msg string) {
+func checkC01(c caseC01) (m model.Packet, frame []byte, sig, msg string) {
 	var built mq.ControlPacket
-	if pan := guard.Call(func() { built = api.Build(&m, plan) }); pan != nil {
-		return nil, "build-panic", fmt.Sprintf("panic while building through the API: %v\n%s", pan.Value, pan.Stack)
+	var berr error
+	if pan := guard.Call(func() { built, m, berr = c.build() }); pan != nil {
+		return m, nil, "build-panic", fmt.Sprintf("panic while building through the API: %v\n%s", pan.Value, pan.Stack)
+	}
+	if berr != nil {
+		return m, nil, "harness", "harness: " + berr.Error()
 	}
 	frame, _, err, pan := write(built)
 	if pan != nil {
-		return nil, "write-panic", fmt.Sprintf("WriteTo panicked: %v\n%s", pan.Value, pan.Stack)
+		return m, nil, "write-panic", fmt.Sprintf("WriteTo panicked: %v\n%s", pan.Value, pan.Stack)
 	}
 	if err != nil {
-		return nil, "write-error", fmt.Sprintf("WriteTo failed: %v", err)
+		return m, nil, "write-error", fmt.Sprintf("WriteTo failed: %v", err)
 	}
 	q, err, pan := read(frame)
 	if pan != nil {
-		return frame, "read-panic", fmt.Sprintf("ReadPacket panicked on the library's own frame %s: %v\n%s", hx(frame), pan.Value, pan.Stack)
+		return m, frame, "read-panic", fmt.Sprintf("ReadPacket panicked on the library's own frame %s: %v\n%s", hx(frame), pan.Value, pan.Stack)
 	}
 	if err != nil {
-		return frame, "read-error", fmt.Sprintf("ReadPacket rejected the library's own frame %s: %v", hx(frame), err)
+		return m, frame, "read-error", fmt.Sprintf("ReadPacket rejected the library's own frame %s: %v", hx(frame), err)
 	}
 	if q == nil {
-		return frame, "nil-nil", "ReadPacket returned (nil, nil)"
+		return m, frame, "nil-nil", "ReadPacket returned (nil, nil)"
 	}
 	if api.TypeOf(q) != int(m.Type) {
-		return frame, "type", fmt.Sprintf("wrote %s, read back %T", typeName(m.Type), q)
+		return m, frame, "type", fmt.Sprintf("wrote %s, read back %T", typeName(m.Type), q)
 	}
 	want := expectAfterWire(m)
 	got := api.Observe(q)
 	if d := model.Diff(got, want); d != "" {
-		return frame, "field:" + fieldOf(d), fmt.Sprintf("accessor mismatch after round trip (got vs want) %s\nframe %s", d, hx(frame))
+		return m, frame, "field:" + fieldOf(d), fmt.Sprintf("accessor mismatch after round trip (got vs want) %s\nframe %s", d, hx(frame))
 	}
 	frame2, _, err, pan := write(q)
 	if pan != nil || err != nil {
-		return frame, "rewrite", fmt.Sprintf("re-encoding the decoded packet failed: %v %v", err, pan)
+		return m, frame, "rewrite", fmt.Sprintf("re-encoding the decoded packet failed: %v %v", err, pan)
 	}
 	if !bytes.Equal(frame, frame2) {
-		return frame, "reencode", fmt.Sprintf("re-encoding differs:\n first %s\nsecond %s", hx(frame), hx(frame2))
+		return m, frame, "reencode", fmt.Sprintf("re-encoding differs:\n first %s\nsecond %s", hx(frame), hx(frame2))
 	}
-	return frame, "", ""
+	return m, frame, "", ""
 }
 
 func fieldOf(diff string) string {
@@ -117,11 +113,7 @@ func TestC01(t *testing.T) {
 		if err := json.Unmarshal(rf.Case, &c); err != nil {
 			t.Fatalf("replay %s: %v", rf.Source, err)
 		}
-		m, err := unpackModel(c.ModelGob)
-		if err != nil {
-			t.Fatalf("replay %s: %v", rf.Source, err)
-		}
-		frame, _, msg := checkC01(m, c.Plan)
+		m, frame, _, msg := checkC01(c)
 		nt, class := classifyC01(r, &m, frame)
 		r.Case(vf.FPs("replay", c.ModelGob), nt, "replay/"+class, func() interface{} { return c.Model })
 		if msg != "" {
@@ -141,14 +133,20 @@ func TestC01(t *testing.T) {
 		}
 		r.Rapid(t, typeName(typ), n, func(t *rapid.T) {
 			m := genC01(t, typ)
-			plan := drawPlan(t, &m)
-			frame, sig, msg := checkC01(m, plan)
+			c := drawBuildCase(t, &m, typ)
+			_, frame, sig, msg := checkC01(c)
 			nt, class := classifyC01(r, &m, frame)
-			r.Case(vf.FPs(packModel(m), fmt.Sprint(plan)), nt, class, func() interface{} {
-				return map[string]interface{}{"model": m.String(), "frame": hx(frame), "setter_calls": len(plan)}
+			if len(c.Prelude) > 0 {
+				r.Count("with-prelude", 1)
+			}
+			if c.DecoyGob != "" {
+				r.Count("with-decoy-calls", 1)
+			}
+			r.Case(vf.FPs(c.ModelGob, fmt.Sprint(c.Plan), fmt.Sprint(len(c.Prelude))), nt, class, func() interface{} {
+				return map[string]interface{}{"model": m.String(), "frame": hx(frame), "setter_calls": len(c.Plan), "prelude_ops": len(c.Prelude)}
 			})
 			if msg != "" {
-				r.Fail("roundtrip", mkCaseC01(m, plan), sig, "%s\nmodel: %s", msg, m.String())
+				r.Fail("roundtrip", c, sig, "%s\nmodel: %s", msg, m.String())
 				t.Fatalf("%s", msg)
 			}
 		})
